@@ -354,11 +354,17 @@ def r4(ctx):
     h = ctx.func(MOD + ".attempt_add_phase_information")
     stored = [u(e) for e in st.value.elts] if isinstance(st.value, ast.Tuple) else []
     unpack = None
+    key = None
+    mapp = util.params_of(h.node)[1]
     for n in walk_function(h.node):
-        if isinstance(n, ast.Assign) and isinstance(n.targets[0], ast.Tuple) and isinstance(n.value, ast.Subscript) and u(n.value.value) == util.params_of(h.node)[1]:
-            unpack = [u(e) for e in n.targets[0].elts]
-            key = u(n.value.slice)
-    ok = stored == ["first_ht", "quality", "phaseset"] and unpack == ["haplotype", "quality", "phaseset"]
+        if isinstance(n, ast.Assign) and isinstance(n.targets[0], ast.Tuple):
+            v_ = util.expand_single_defs(h.node, n.value, keep=tuple(util.params_of(h.node)))
+            if isinstance(v_, ast.Subscript) and u(v_.value) == mapp:
+                unpack, key = [u(e) for e in n.targets[0].elts], u(v_.slice)
+            elif isinstance(v_, ast.Call) and isinstance(v_.func, ast.Attribute) and v_.func.attr == "get" and u(v_.func.value) == mapp and len(v_.args) == 1:
+                unpack, key = [u(e) for e in n.targets[0].elts], u(v_.args[0])
+    # the names may differ; what counts is that position k of the stored tuple is read back as position k
+    ok = (None if unpack is None else (stored == ["first_ht", "quality", "phaseset"] and len(unpack) == 3 and len(set(unpack)) == 3))
     # the three results are accumulated over ALL samples: none of them is re-created inside a loop
     rets_p = [n for n in walk_function(fi.node) if isinstance(n, ast.Return) and isinstance(n.value, ast.Tuple)]
     ctx.require(len(rets_p) == 1, "prepare_haplotag_information no longer returns one tuple")
@@ -369,17 +375,26 @@ def r4(ctx):
     ctx.ob(h.qual, "tuple-layout-agrees", ok, h.loc(), "stored (haplotype, quality, phaseset) is unpacked in the same order" if ok else "stored tuple %s vs unpacked %s" % (stored, unpack))
     okk = unpack is not None and key == "%s.query_name" % util.params_of(h.node)[0] and u(st.target.slice).endswith(".name")
     ctx.ob(h.qual, "looked-up-by-read-name", okk, h.loc(), "the assignment is stored under the read's name and looked up by the alignment's query_name" if okk else "store key / lookup key are not read name / query_name")
-    want = {"HP": {"haplotype": 1, "": 1}, "PC": {"quality": 1}, "PS": {"phaseset": 1}}
+    hv_, qv_, pv_ = unpack if unpack and len(unpack) == 3 else ("haplotype", "quality", "phaseset")
+    want = {"HP": {hv_: 1, "": 1}, "PC": {qv_: 1}, "PS": {pv_: 1}}
     hcfg = ctx.cfg(h)
+    # the read-cloud branch unpacks (reference_start, haplotype, phaseset) from the BX table: its own names
+    cloud = [n for n in walk_function(h.node) if isinstance(n, ast.For) and isinstance(n.target, ast.Tuple) and len(n.target.elts) == 3]
     for n in walk_function(h.node):
         if isinstance(n, ast.Call) and isinstance(n.func, ast.Attribute) and n.func.attr == "set_tag" and isinstance(n.args[0], ast.Constant) and n.args[0].value in want:
+            inc = [c_ for c_ in cloud if any(x is n for x in ast.walk(c_))]
+            if inc:
+                _rs, ch_, cp_ = [u(e) for e in inc[0].target.elts]
+                want_here = {"HP": {ch_: 1, "": 1}, "PC": {qv_: 1}, "PS": {cp_: 1}}
+            else:
+                want_here = want
             val = n.args[1] if len(n.args) > 1 else [k.value for k in n.keywords if k.arg == "value"][0]
             if isinstance(val, ast.Constant) and val.value is None:
                 continue
             lf = linear(val)
             tag = n.args[0].value
-            ok = lf == want[tag]
-            ctx.ob(h.qual, "tag-value:%s=%s" % (tag, u(val)), ok, h.loc(n), "%s = %s" % (tag, u(val)) if ok else "%s is set to %s, expected %s" % (tag, u(val), want[tag]))
+            ok = lf == want_here[tag]
+            ctx.ob(h.qual, "tag-value:%s=%s" % (tag, u(val)), ok, h.loc(n), "%s = %s" % (tag, u(val)) if ok else "%s is set to %s, expected %s" % (tag, u(val), want_here[tag]))
     # scoring: phase info layout and agreement test
     gv = ctx.func(MOD + ".get_variant_information")
     # what is stored per position: a subscript store into the returned map, or the value of a dict comprehension
